@@ -178,6 +178,34 @@ def run(ctx, impl_only=False):
                     ctx.violate(dict(case0, scenario='hashes of an earlier run passed in'), 'raised %s' % type(e).__name__)
         if len(ctx.samples) < 4:
             ctx.sample({'t1': repr(t1)[:120], 't2': repr(t2)[:120]})
+    # ---- blocks of near-duplicate rows with every pairing attempted (cutoff_intersection_for_pairs=1): many cache entries with equal
+    # use counts.  The report may legitimately differ here (finding F16); what must not depend on the cache is whether the run succeeds.
+    for _ in range(40 if ctx.thorough() else 10):
+        n_rows = ctx.rng.randrange(3, 6)
+        base_rows = [{'id': r, 'tags': [r * 10 + c for c in range(3)]} for r in range(n_rows)]
+        def variant(k):
+            rows = [{'id': row['id'], 'tags': list(row['tags'])} for row in base_rows]
+            for _ in range(ctx.rng.randrange(1, 3)):
+                row = rows[ctx.rng.randrange(n_rows)]
+                row['tags'][ctx.rng.randrange(3)] = 1000 + ctx.rng.randrange(50)
+            return {'name': 'block%d' % k, 'rows': rows}
+        n_outer = ctx.rng.randrange(4, 8)
+        b1 = [variant(k) for k in range(n_outer)]; b2 = [variant(k) for k in range(n_outer)]
+        ctx.rng.shuffle(b2)
+        def outcome(cs):
+            try:
+                DeepDiff(b1, b2, ignore_order=True, cutoff_intersection_for_pairs=1, cache_size=cs)
+                return 'ok'
+            except Exception as e:
+                return 'raised ' + type(e).__name__
+        ref_o = outcome(0)
+        for cs in (2, 7, 5000):
+            ctx.evaluations += 1
+            o = outcome(cs)
+            ctx.count('block_runs')
+            if o != ref_o:
+                ctx.violate({'t1': repr(b1), 't2': repr(b2), 'ignore_order': True, 'cache_size': cs, 'scenario': 'cutoff_intersection_for_pairs=1'},
+                            'with cache_size=%d the run %s, with cache_size=0 it %s' % (cs, o, ref_o))
     # ---- a long-lived hashes table: temporaries whose addresses are recycled, and a container edited in place between runs
     table = {}
     for k in range(400 if ctx.thorough() else 150):
@@ -223,6 +251,12 @@ def run(ctx, impl_only=False):
         for i in ctx.rng.sample(range(7), 3):
             io_[i] = ib[i] + ctx.rng.randint(1, 50)
         jobs.append(('diff_io', ib, io_))
+
+    for _ in range(16 if ctx.thorough() else 8):
+        tup = tuple(ctx.rng.randint(0, 9) for _ in range(5))
+        tl = list(tup); tl[ctx.rng.randrange(5)] = 77; tl.insert(ctx.rng.randint(0, 5), 88)
+        jobs.append(('delta', {'t': tup, 'k': [tup, 1]}, {'t': tuple(tl), 'k': [tuple(tl[:4]), 1]}))
+        jobs.append(('delta', [tup, [1, 2]], [tuple(tl), [1, 2, 3]]))
 
     def compute(job):
         kind, t1, t2 = job
